@@ -74,16 +74,20 @@ func parseProblems(out []byte, p model.Piece) []string {
 			if err != nil || d != in.Chord.Deg {
 				return []string{fmt.Sprintf("instance %d: degree %q read back, %s written", i, asStr(ch["degree"]), in.Chord.Deg.Notation())}
 			}
+			// the symbol may be shown resolved (chord: {name, meta: {display}}) or as written (name: ...)
 			cc, _ := ch["chord"].(map[string]any)
 			cm, _ := cc["meta"].(map[string]any)
-			if asStr(cc["name"]) != in.Chord.Symbol && asStr(cm["display"]) != in.Chord.Symbol {
-				return []string{fmt.Sprintf("instance %d: chord %q/%q read back, symbol %q written", i, asStr(cc["name"]), asStr(cm["display"]), in.Chord.Symbol)}
+			_, plain := ch["name"]
+			if !(asStr(cc["name"]) == in.Chord.Symbol && cc != nil) && !(asStr(cm["display"]) == in.Chord.Symbol && cm != nil) && !(plain && asStr(ch["name"]) == in.Chord.Symbol) {
+				return []string{fmt.Sprintf("instance %d: chord %q/%q/%q read back, symbol %q written", i, asStr(cc["name"]), asStr(cm["display"]), asStr(ch["name"]), in.Chord.Symbol)}
 			}
 			wantBass := theory.Interval{N: 1, Q: theory.Perfect}
 			if in.Chord.Bass != nil {
 				wantBass = *in.Chord.Bass
 			}
-			if b, err := theory.ParseNotation(asStr(ch["base"])); err != nil || b != wantBass {
+			if _, has := ch["base"]; !has && in.Chord.Bass == nil {
+				// an absent bass may stay absent
+			} else if b, err := theory.ParseNotation(asStr(ch["base"])); err != nil || b != wantBass {
 				return []string{fmt.Sprintf("instance %d: base %q read back, %s written", i, asStr(ch["base"]), wantBass.Notation())}
 			}
 		}
